@@ -261,6 +261,7 @@ def fresh_fits(cases, seed):
     return list(zip(res[0::2], res[1::2]))
 
 
+ALL_HUGE = [False]      # set by run(): thorough runs all three huge constructor values per case
 HISTORIES = ("free_then_fix", "refix", "assign_delta", "deepcopy")
 
 
@@ -289,7 +290,7 @@ def object_histories(vc, x, method, warg, fdelta):
     return out
 
 
-def free_histories(vc, c, x, method, warg, warr, base):
+def free_histories(vc, c, x, method, warg, warr, base, all_huge=False):
     """ONE object with a past, delta free: (a) an earlier fit to a sample whose optimal delta is tiny leaves a
     delta ~1e-4 behind, (b) the object is constructed with delta=1e-4.  The fit to x must then still be a
     local minimiser and agree with the fresh object's fit (measured here; judged in Trace_C13)."""
@@ -319,7 +320,40 @@ def free_histories(vc, c, x, method, warg, warr, base):
     o.fit(a_small, method=method)           # leaves a tiny delta in the object
     measure("after_small_delta_fit", o)
     measure("constructed_small_delta", EW(delta=1e-4))
+    # the mirror image: a delta that ran away in an earlier fit (a small exponential sample with cubic weights
+    # has no minimiser in delta), or a huge delta given to the constructor
+    o = EW()
+    o.fit(runaway_sample(vc), method="wlsq", weights="cubic")
+    if not o.delta > 1e10:
+        raise Machinery(f"vacuous history: the first fit did not run away (delta = {o.delta})")
+    measure("after_runaway_fit", o)
+    bigs = ("1e14", "1e16", "1e20")
+    if not all_huge:                  # quick: one of the three per case, rotating
+        bigs = (bigs[zlib.crc32(law_key(c).encode()) % 3],)
+    for big in bigs:
+        measure("constructed_delta_" + big, EW(delta=float(big)))
     return out
+
+
+_RUNAWAY = {}
+
+
+def runaway_sample(vc):
+    """a 30-point exponential sample on which the free-delta fit with cubic weights runs away (delta > 1e10);
+    searched once per process, independent of the case"""
+    if "x" not in _RUNAWAY:
+        for sd in range(40):
+            x = np.random.default_rng(sd).exponential(1.0, 30)
+            d = vc.ExponentiatedWeibullDistribution()
+            with warnings.catch_warnings():
+                warnings.simplefilter("ignore")
+                d.fit(x, method="wlsq", weights="cubic")
+            if d.delta > 1e10:
+                _RUNAWAY["x"] = x
+                break
+        else:
+            raise Machinery("no exponential sample found on which the delta search runs away")
+    return _RUNAWAY["x"]
 
 
 def law_again(vc, c, seed):
@@ -385,7 +419,7 @@ def law_record(vc, rid, c, seed):
             if fdelta is not None:
                 rec["hist"] = object_histories(vc, x, method, warg, fdelta)
             else:
-                rec["fhist"] = free_histories(vc, c, x, method, warg, warr, (al, be, de))
+                rec["fhist"] = free_histories(vc, c, x, method, warg, warr, (al, be, de), all_huge=ALL_HUGE[0])
             if isint:       # the same numbers as integers (the weights x, x^2, x^3 must not overflow)
                 for dt in (np.int32, np.int64):
                     variant("intdtype", x.astype(dt), warg, warr)
@@ -648,6 +682,7 @@ def selftest(ctx, law_recs, disc_recs, failing, all_recs=()):
 
 def run(ctx):
     vc = import_virocon()
+    ALL_HUGE[0] = not ctx.quick
     ctx.rule = ("TLC-enumerated: (a) every (method, weights kind, fixed set) row of the decision table; (b) every data "
                 "vector of length <= 3 (quick) / 4 (thorough) over {0..3} x every weight vector over {1,2} and the "
                 "keyword/None weights x delta fixed/free x method; (c) law cases weights kind x delta fixed/free x "
